@@ -41,7 +41,7 @@ def lp_families(tier, seed):
     for c in fam.fam_transport()[seed % (8 if not th else 2)::(8 if not th else 2)]:
         out.append(('transport', c))
     for c in fam.fam_split()[::3 if not th else 1]:
-        if c['coupling'] in ('none', 'storage_start_eq_end'):
+        if c['coupling'] in ('none', 'storage_start_eq_end') and not any(a['kind'] == 'orderbook' and a['fullexec'] for a in c['assets']):      # LPs only
             out.append(('split', c))
     out = [(tag, c) for tag, c in out if all(d == 1 for d in c['dt'])]      # the unit injection is a rate: one unit of volume only on unit steps
     # magnitude of cost coefficients: the same portfolios with a back-up source priced at a "value of lost load" (never or rarely used)
